@@ -410,4 +410,131 @@ CORPUS = [
     " route-target export 65001:100",
     "!",
     "end",
+    "snmp-server engineID local 800000090300AABBCCDDEEFF",
+    "snmp-server engineID remote 10.1.1.1 800000090300AABBCCDDEE01",
+    "snmp-server engineID remote 2001:db8::99 udp-port 162 80000009030000112233",
+    "snmp-server location Building 7 floor 2 rack 14",
+    "snmp-server contact noc at example dot org",
+    "snmp-server trap-source Loopback0",
+    "snmp-server ifindex persist",
+    "snmp-server view ALL iso included",
+    "snmp-server group NOCGRP v3 priv read ALL",
+    "logging host 192.0.2.50 transport udp port 514",
+    "logging source-interface Loopback0",
+    "logging buffered 64000 informational",
+    "ntp server 192.0.2.123 prefer",
+    "ntp source Loopback0",
+    "ntp authenticate",
+    "ntp trusted-key 5",
+    "ip name-server 192.0.2.53 192.0.2.54",
+    "ip domain-name corp.example.org",
+    "ip ssh source-interface Loopback0",
+    "ip access-list extended EDGE-IN",
+    " permit tcp 10.0.0.0 0.255.255.255 any eq 443",
+    "access-list 10 permit 172.16.5.0 0.0.0.255",
+    "ip prefix-list PL-OUT seq 5 permit 203.0.113.0/24 le 28",
+    " match ip address prefix-list PL-OUT",
+    " set as-path prepend 65001 65001",
+    " set community 65001:100 additive",
+    " set community no-export",
+    "ip community-list standard CL-1 permit 65001:200",
+    "aaa authorization exec default group tacacs+ local",
+    "aaa accounting commands 15 default start-stop group tacacs+",
+    "aaa group server tacacs+ TACGRP",
+    " server 192.0.2.61",
+    "ip tacacs source-interface Loopback0",
+    "tacacs-server timeout 5",
+    "radius-server timeout 3",
+    "radius-server retransmit 2",
+    " login local",
+    " access-class 10 in",
+    " name USERS-FLOOR2",
+    "vrf definition MGMT",
+    " rd 65001:10",
+    " route-target export 65001:10",
+    " address-family ipv4",
+    "interface Vlan120",
+    " ip helper-address 10.9.8.7",
+    " standby 1 ip 10.1.120.1",
+    " standby 1 priority 110",
+    " standby 1 preempt",
+    " vrrp 2 ip 10.1.121.1",
+    " ip ospf cost 100",
+    " ip ospf network point-to-point",
+    " ip ospf authentication message-digest",
+    " ip pim sparse-mode",
+    "router ospf 1",
+    " router-id 10.255.0.1",
+    " network 10.1.0.0 0.0.255.255 area 0",
+    " passive-interface default",
+    " area 1 authentication message-digest",
+    "router isis CORE",
+    " net 49.0001.0102.5500.0001.00",
+    " is-type level-2-only",
+    " metric-style wide",
+    "crypto isakmp policy 10",
+    " encryption aes 256",
+    " authentication pre-share",
+    " group 14",
+    "crypto ipsec transform-set TS esp-aes 256 esp-sha-hmac",
+    "crypto map VPN 10 ipsec-isakmp",
+    " set peer 198.51.100.20",
+    " set transform-set TS",
+    " match address VPN-ACL",
+    "crypto key generate rsa modulus 2048",
+    "crypto pki trustpoint TP-self-signed-12345",
+    " enrollment selfsigned",
+    " revocation-check none",
+    "username admin privilege 15",
+    "service password-encryption",
+    "service timestamps log datetime msec localtime",
+    "no ip http server",
+    "ip http secure-server",
+    "set system host-name edge-r1",
+    "set system time-zone UTC",
+    "set system name-server 192.0.2.53",
+    "set system syslog host 192.0.2.50 any notice",
+    "set system login user ops class super-user",
+    "set system login user ops uid 2001",
+    "set system ntp server 192.0.2.123",
+    "set interfaces ge-0/0/0 unit 0 family inet address 10.4.5.6/30",
+    "set interfaces lo0 unit 0 family inet6 address 2001:db8:ffff::1/128",
+    "set protocols bgp group EBGP type external",
+    "set protocols bgp group EBGP peer-as 64512",
+    "set protocols bgp group EBGP neighbor 198.51.100.9",
+    "set protocols bgp group EBGP authentication-algorithm md5",
+    "set protocols ospf area 0.0.0.0 interface ge-0/0/0.0 metric 10",
+    "set protocols isis interface lo0.0 passive",
+    "set policy-options prefix-list PL1 203.0.113.0/24",
+    "set policy-options policy-statement EXPORT term 1 from protocol direct",
+    "set policy-options policy-statement EXPORT term 1 then accept",
+    "set policy-options community C1 members 65001:300",
+    "set routing-options autonomous-system 65001",
+    "set routing-options static route 0.0.0.0/0 next-hop 203.0.113.1",
+    "set security zones security-zone trust interfaces ge-0/0/1.0",
+    "set security ike proposal P1 authentication-method pre-shared-keys",
+    "set security ike proposal P1 dh-group group14",
+    "set security ike gateway GW1 address 198.51.100.30",
+    "set security ipsec vpn V1 ike gateway GW1",
+    "set snmp location \"Building 7\"",
+    "set snmp contact \"noc\"",
+    "set snmp trap-options source-address 10.255.0.1",
+    "set firewall family inet filter F1 term 1 from source-address 10.0.0.0/8",
+    "config system global",
+    "    set hostname \"fw-edge-1\"",
+    "    set timezone 26",
+    "    set admintimeout 15",
+    "config system interface",
+    "    edit \"port1\"",
+    "        set ip 192.0.2.1 255.255.255.0",
+    "        set allowaccess ping https ssh",
+    "        set type physical",
+    "config router static",
+    "        set gateway 192.0.2.254",
+    "        set device \"port1\"",
+    "config firewall policy",
+    "        set srcintf \"port2\"",
+    "        set action accept",
+    "        set schedule \"always\"",
+    "        set service \"ALL\"",
 ]
